@@ -20,6 +20,9 @@ enum Ev {
     Reset(usize),
     Describe(usize),
     Emit(usize),
+    /// client i connects and, with no quiescence barrier in between, operation k is emitted: the accept and the metric
+    /// can land in the same wake-up of the transport thread
+    ConnectEmit(usize, usize),
 }
 
 const N_DESCR: usize = 3;
@@ -32,6 +35,9 @@ fn describe(rec: &TcpRecorder, i: usize) {
         2 => rec.describe_counter("c_m".into(), Some(Unit::Count), "counter help, second edition".into()),
         _ => {
             rec.describe_gauge("g_m".into(), Some(Unit::Percent), "gauge help".into());
+            // descriptions travel through the same bounded channel as metrics (try_send): let the transport thread take
+            // the first one before sending the second, or buffer_size(Some(1)) legitimately drops it ("rate within the buffer")
+            let _ = barrier(rec);
             rec.describe_histogram("h_m".into(), None, "hist help".into());
         }
     }
@@ -89,6 +95,8 @@ struct Client {
     metadata_at_connect: Vec<usize>,
     /// emits issued while connected: (emit kind, seqno)
     expected: Vec<(usize, u64)>,
+    /// sequence numbers in `expected` that may legitimately be missing (emitted while the accept was still in flight)
+    optional: Vec<u64>,
     open: bool,
     ever: bool,
 }
@@ -198,7 +206,7 @@ fn run_history(h: &[Ev], cfg: &Config) -> Outcome {
     if let Err(e) = barrier(&ex.rec) {
         return bad("exporter-does-not-serve", format!("buffer_size({:?}): {}", cfg.buffer, e), 0);
     }
-    let mut clients: Vec<Client> = (0..3).map(|_| Client { stream: None, buf: vec![], metadata_at_connect: vec![], expected: vec![], open: false, ever: false }).collect();
+    let mut clients: Vec<Client> = (0..3).map(|_| Client { stream: None, buf: vec![], metadata_at_connect: vec![], expected: vec![], optional: vec![], open: false, ever: false }).collect();
     let mut described: Vec<usize> = Vec::new();
     let mut seqno = 0u64;
     let mut past: Vec<Client> = Vec::new();
@@ -227,7 +235,7 @@ fn run_history(h: &[Ev], cfg: &Config) -> Outcome {
         match *ev {
             Ev::Connect(i) => {
                 if clients[i].ever {
-                    let old = std::mem::replace(&mut clients[i], Client { stream: None, buf: vec![], metadata_at_connect: vec![], expected: vec![], open: false, ever: false });
+                    let old = std::mem::replace(&mut clients[i], Client { stream: None, buf: vec![], metadata_at_connect: vec![], expected: vec![], optional: vec![], open: false, ever: false });
                     past.push(old);
                 }
                 let s = match TcpStream::connect_timeout(&ex.addr, Duration::from_secs(5)) {
@@ -235,7 +243,27 @@ fn run_history(h: &[Ev], cfg: &Config) -> Outcome {
                     Err(e) => return bad("connect-not-answered", format!("connect failed: {}", e), writes(w0)),
                 };
                 s.set_nonblocking(true).unwrap();
-                clients[i] = Client { stream: Some(s), buf: vec![], metadata_at_connect: described.clone(), expected: vec![], open: true, ever: true };
+                clients[i] = Client { stream: Some(s), buf: vec![], metadata_at_connect: described.clone(), expected: vec![], optional: vec![], open: true, ever: true };
+            }
+            Ev::ConnectEmit(i, k) => {
+                if clients[i].ever {
+                    let old = std::mem::replace(&mut clients[i], Client { stream: None, buf: vec![], metadata_at_connect: vec![], expected: vec![], optional: vec![], open: false, ever: false });
+                    past.push(old);
+                }
+                let s = match TcpStream::connect_timeout(&ex.addr, Duration::from_secs(5)) {
+                    Ok(s) => s,
+                    Err(e) => return bad("connect-not-answered", format!("connect failed: {}", e), writes(w0)),
+                };
+                s.set_nonblocking(true).unwrap();
+                clients[i] = Client { stream: Some(s), buf: vec![], metadata_at_connect: described.clone(), expected: vec![], optional: vec![], open: true, ever: true };
+                seqno += 1;
+                emit(&ex.rec, k, seqno);
+                for (ci, c) in clients.iter_mut().enumerate().filter(|(_, c)| c.open) {
+                    c.expected.push((k, seqno));
+                    if ci == i {
+                        c.optional.push(seqno);
+                    }
+                }
             }
             Ev::Read(i) => drain(&mut clients[i]),
             Ev::Close(i) => {
@@ -288,7 +316,7 @@ fn run_history(h: &[Ev], cfg: &Config) -> Outcome {
             drain(c);
         }
         let complete = clients.iter().filter(|c| c.open).all(|c| match pbwire::split_stream(&c.buf) {
-            Ok((frames, 0)) => frames.iter().filter(|f| matches!(f, Frame::Metric { .. })).count() >= c.expected.len() && frames.iter().filter(|f| matches!(f, Frame::Metadata { .. })).count() >= metadata_for(&c.metadata_at_connect).len().min(meta_cap),
+            Ok((frames, 0)) => frames.iter().filter(|f| matches!(f, Frame::Metric { .. })).count() >= c.expected.len() - c.optional.len() && frames.iter().filter(|f| matches!(f, Frame::Metadata { .. })).count() >= metadata_for(&c.metadata_at_connect).len().min(meta_cap),
             Ok(_) => false,
             Err(_) => true,
         });
@@ -312,6 +340,9 @@ fn run_history(h: &[Ev], cfg: &Config) -> Outcome {
         if trailing != 0 && c.open {
             return bad("torn-frame", format!("client {}: {} trailing byte(s) that do not form a whole frame after everything was flushed ;; history {:?} config {:?}", ci, trailing, h, cfg), w);
         }
+        if std::env::var("C11_DEBUG").is_ok() {
+            eprintln!("client {} frames {:?} expected {:?} optional {:?} writes {}", ci, frames, c.expected, c.optional, w);
+        }
         // metadata first
         let n_meta = frames.iter().take_while(|f| matches!(f, Frame::Metadata { .. })).count();
         if frames[n_meta..].iter().any(|f| matches!(f, Frame::Metadata { .. })) {
@@ -323,11 +354,12 @@ fn run_history(h: &[Ev], cfg: &Config) -> Outcome {
         want_meta.sort();
         let metrics: Vec<&Frame> = frames[n_meta..].iter().collect();
         let want: Vec<Frame> = c.expected.iter().map(|(k, s)| expected_metric(*k, *s)).collect();
+        let want_optional: Vec<bool> = c.expected.iter().map(|(_, s)| c.optional.contains(s)).collect();
         // a client that closed before the end may have missed frames sent after its last read: only judge frames up to what it read
         let complete = c.open;
         if complete && !cfg.plan.iter().any(|p| p.1 != 0) || big_buffer {
             // metadata is only guaranteed complete when nothing was discarded for the client
-            if complete && got_meta != want_meta && big_buffer {
+            if complete && got_meta != want_meta && (big_buffer || !cfg.plan.iter().any(|p| p.1 != 0)) {
                 return bad("metadata-at-connect-wrong", format!("client {}: metadata frames {:?}, expected {:?} ;; history {:?} config {:?}", ci, got_meta, want_meta, h, cfg), w);
             }
         }
@@ -342,14 +374,16 @@ fn run_history(h: &[Ev], cfg: &Config) -> Outcome {
                     found = true;
                     break;
                 }
-                missing += 1;
+                if !want_optional[wi - 1] {
+                    missing += 1;
+                }
             }
             if !found {
                 let dup = metrics.iter().filter(|x| **x == *m).count() > 1;
                 return bad(if dup { "frame-duplicated" } else { "unexpected-or-reordered-frame" }, format!("client {}: received {:?} which is not the next expected frame; received {:?}, emitted while connected {:?} ;; history {:?} config {:?}", ci, m, metrics, want, h, cfg), w);
             }
         }
-        missing += want.len() - wi;
+        missing += (wi..want.len()).filter(|i| !want_optional[*i]).count();
         if complete && missing > 0 {
             // frames may only be missing when more was emitted than the buffer holds while writes were held back
             let held_back = cfg.plan.iter().any(|p| p.1 != 0);
@@ -372,8 +406,13 @@ fn histories(len: usize, nclients: usize) -> Vec<Vec<Ev>> {
         for i in 0..n {
             if !open[i] {
                 // client i+1 connects only after client i was used at least once (symmetry)
-                if i == 0 || cur.iter().any(|e| matches!(e, Ev::Connect(j) if *j == i - 1)) {
+                if i == 0 || cur.iter().any(|e| matches!(e, Ev::Connect(j) | Ev::ConnectEmit(j, _) if *j == i - 1)) {
                     cur.push(Ev::Connect(i));
+                    open[i] = true;
+                    rec(cur, open, len, n, out);
+                    open[i] = false;
+                    cur.pop();
+                    cur.push(Ev::ConnectEmit(i, 0));
                     open[i] = true;
                     rec(cur, open, len, n, out);
                     open[i] = false;
@@ -544,14 +583,14 @@ fn backpressure(res: &mut PartResult, buffer: Option<usize>) {
         if i % 2 == 0 {
             extra_slow.push(c);
         } else {
-            extra_fast.push(Client { stream: Some(c), buf: vec![], metadata_at_connect: vec![], expected: vec![], open: true, ever: true });
+            extra_fast.push(Client { stream: Some(c), buf: vec![], metadata_at_connect: vec![], expected: vec![], optional: vec![], open: true, ever: true });
         }
     }
     let fast = TcpStream::connect(ex.addr).unwrap();
     fast.set_nonblocking(true).unwrap();
     let _ = barrier(&ex.rec);
     let n = 6000u64;
-    let mut fast_c = Client { stream: Some(fast), buf: vec![], metadata_at_connect: vec![], expected: vec![], open: true, ever: true };
+    let mut fast_c = Client { stream: Some(fast), buf: vec![], metadata_at_connect: vec![], expected: vec![], optional: vec![], open: true, ever: true };
     let fat = "x".repeat(3000);
     let fat_counter = ex.rec.register_counter(&Key::from_parts("c_m", vec![Label::new("pad", fat.clone())]), &META);
     let emit = |_: &TcpRecorder, _: usize, s: u64| fat_counter.increment(s);
@@ -567,7 +606,7 @@ fn backpressure(res: &mut PartResult, buffer: Option<usize>) {
             drain(c);
         }
     }
-    let mut slow_c = Client { stream: Some(slow), buf: vec![], metadata_at_connect: vec![], expected: vec![], open: true, ever: true };
+    let mut slow_c = Client { stream: Some(slow), buf: vec![], metadata_at_connect: vec![], expected: vec![], optional: vec![], open: true, ever: true };
     // now the slow client reads everything; keep nudging so that the exporter drives its connection
     for s in n + 1..=n + 200 {
         drain(&mut slow_c);
@@ -649,7 +688,27 @@ fn parts(ctx: &Ctx) -> Vec<PartSpec> {
     v
 }
 
+/// debugging aid (C11_DEBUG=1): prints the exporter's own trace events to stderr
+struct DebugPrint;
+impl<S: tracing::Subscriber> tracing_subscriber::Layer<S> for DebugPrint {
+    fn on_event(&self, ev: &tracing::Event<'_>, _: tracing_subscriber::layer::Context<'_, S>) {
+        struct V(String);
+        impl tracing::field::Visit for V {
+            fn record_debug(&mut self, f: &tracing::field::Field, v: &dyn std::fmt::Debug) {
+                self.0.push_str(&format!(" {}={:?}", f.name(), v));
+            }
+        }
+        let mut v = V(String::new());
+        ev.record(&mut v);
+        eprintln!("[{:?}] {}{}", std::thread::current().id(), ev.metadata().target(), v.0);
+    }
+}
+
 fn run(ctx: &Ctx, spec: &PartSpec) -> PartResult {
+    if std::env::var("C11_DEBUG").is_ok() {
+        use tracing_subscriber::layer::SubscriberExt;
+        let _ = tracing::subscriber::set_global_default(tracing_subscriber::registry().with(DebugPrint));
+    }
     let mut res = PartResult::new(&spec.name, "");
     NET.store(spec.arg["net"].as_u64().unwrap_or(0) as usize, std::sync::atomic::Ordering::SeqCst);
     let buffer = spec.arg["buffer"].as_u64().map(|x| x as usize);
@@ -665,7 +724,7 @@ fn main() {
     driver::main(CheckDef {
         prop: "C11",
         level: "model_checking",
-        rule: "every well-formed history of at most N events over {connect(i), read(i), close(i), reset(i) (SO_LINGER 0), describe(counter | gauge + histogram), emit(6 operations incl. labels)} with 2-3 clients, for buffer_size in {Some(1), Some(2), Some(1024), None}, against a fresh real exporter (public TcpBuilder::build) with a quiescence barrier after every event (wake; wait for a fully processed batch; twice), plus for fan-out histories every assignment of at most d deviating answers {Short(1), Short(5), WouldBlock} to the exporter's first write calls (deviation-bounded, default Full); every client's byte stream is decoded by an independent protobuf wire parser: whole frames only, metadata known at connect first, then exactly the emits issued while connected, in order, intact, no duplicates (with a small buffer and held-back writes only older frames may be missing); one scripted real back-pressure history per buffer config; distinct = distinct per-client delivery summaries",
+        rule: "every well-formed history of at most N events over {connect(i), connect(i) immediately followed by an emit (no barrier: the accept and the metric can share a wake-up), read(i), close(i), reset(i) (SO_LINGER 0), describe(counter | gauge + histogram), emit(6 operations incl. labels)} with 2-3 clients, for buffer_size in {Some(1), Some(2), Some(1024), None}, against a fresh real exporter (public TcpBuilder::build) with a quiescence barrier after every event (wake; wait for a fully processed batch; twice), plus for fan-out histories every assignment of at most d deviating answers {Short(1), Short(5), WouldBlock} to the exporter's first write calls (deviation-bounded, default Full); every client's byte stream is decoded by an independent protobuf wire parser: whole frames only, metadata known at connect first, then exactly the emits issued while connected, in order, intact, no duplicates (with a small buffer and held-back writes only older frames may be missing); one scripted real back-pressure history per buffer config; distinct = distinct per-client delivery summaries",
         assumptions: &["kernel / mio readiness order inside one epoll batch is not enumerated: one harness event at a time, exporter run to quiescence in between", "Interrupted is not in the write-answer alphabet (a non-blocking socket write cannot return EINTR on Linux)", "every history ends with one extra emit so that frames held back by an injected short or would-block answer are driven out"],
         parts,
         run,
